@@ -121,7 +121,7 @@ func (r *Run) checkProvenance(P string, only map[string]bool) {
 			n := 0
 			for _, path := range paths {
 				ret := path[len(path)-1].Instrs[len(path[len(path)-1].Instrs)-1].(*ssa.Return)
-				if !isNilConstV(ret.Results[ei]) {
+				if !isNilConstV(core.RetOp(ret, ei)) {
 					continue
 				}
 				n++
@@ -129,7 +129,7 @@ func (r *Run) checkProvenance(P string, only map[string]bool) {
 				for _, b := range path {
 					for _, ins := range b.Instrs {
 						if st, isSt := ins.(*ssa.Store); isSt {
-							if fa, isFA := st.Addr.(*ssa.FieldAddr); isFA && fa.X == ret.Results[0] && fieldName(fa) == fld {
+							if fa, isFA := st.Addr.(*ssa.FieldAddr); isFA && fa.X == core.RetOp(ret, 0) && fieldName(fa) == fld {
 								last = st.Val
 							}
 						}
@@ -181,7 +181,7 @@ func (r *Run) checkNextAgree(P string) {
 				typ = strings.Trim(fc.B.Name, `"`)
 			}
 		}
-		t := ff.TB.Of(ri.Ret.Results[0])
+		t := ff.TB.Of(core.RetOp(ri.Ret, 0))
 		ok := typ != "" && core.MatchTerm(want[typ], t, core.Bind{})
 		got[typ] = t.String()
 		r.R.Check(ok, P+".next.agree."+typ, "E1 sibling agreement: Parser.GetCommitment returns, for this type, the access path the applier stores as next commitment ("+want[typ]+")",
